@@ -42,7 +42,7 @@ impl Prop for C05 {
         "C05"
     }
     fn rule(&self) -> String {
-        "graphs of all 8 kinds, n in 0..=8 (oracle: explicit enumeration of all shortest paths per ordered pair and counting those with v strictly inside) n in 9..=30 and boundary sizes up to 255 (oracle: sigma products on the Floyd-Warshall matrix), and one case in 4300 with a procedurally generated sparse graph of 300..3000 nodes (oracle: an independent Brandes implementation, itself compared with the brute-force oracle on every small case), shapes and shuffled insertion order as C04; weight modes unweighted / positive dyadic / tie-rich; every graph is evaluated in all of weighted x normalized that apply; tolerance 1e-9 relative. Exhaustive block: all graphs on <= 3 nodes of the single-edge kinds. Non-trivial = some node has non-zero betweenness and some pair has >= 2 shortest paths; distinct = distinct serialised case. Name-type independence: for every graph of <= 12 nodes and one in eight up to 64 (34 for path-returning calls) the same calls are repeated with a user-defined node-name type (lossy Display, heavily colliding Hash, Ord unrelated to insertion order) and must give the same order-independent results as with String names (floats within 1e-9).".into()
+        "graphs of all 8 kinds, n in 0..=8 (oracle: explicit enumeration of all shortest paths per ordered pair and counting those with v strictly inside) n in 9..=30 and boundary sizes up to 255 (oracle: sigma products on the Floyd-Warshall matrix), and one case in 4300 with a procedurally generated sparse graph of 300..3000 nodes (oracle: an independent Brandes implementation, itself compared with the brute-force oracle on every small case), shapes and shuffled insertion order as C04; weight modes unweighted / positive dyadic / tie-rich; every graph is evaluated in all of weighted x normalized that apply; tolerance 1e-9 relative. Exhaustive block: all graphs on <= 3 nodes of the single-edge kinds. Non-trivial = some node has non-zero betweenness and some pair has >= 2 shortest paths; distinct = distinct serialised case. Name-type independence: for every graph of <= 12 nodes and one in eight up to 64 (34 for path-returning calls) the same calls are repeated with a user-defined node-name type (lossy Display, heavily colliding Hash, Ord unrelated to insertion order) and must give the same order-independent results as with String names (floats within 1e-9). Each call runs in the ambient 16-thread pool or, selected by the case, inside a shared rayon pool of 1, 3, 24 or 64 threads (more threads than nodes for the 21..=60-node class).".into()
     }
     fn assumptions(&self) -> Vec<String> {
         vec!["positive weights; paths are node sequences (parallel edges do not multiply path counts)".into(), "float comparison with relative tolerance 1e-9 (the quotient sigma_sv*sigma_vt/sigma_st is not exact)".into()]
@@ -116,7 +116,7 @@ impl Prop for C05 {
                 rescale_betweenness(&mut want, n, normalized, ng.directed);
                 let ctx = format!("betweenness_centrality[{},norm={}]", if weighted { "weighted" } else { "hops" }, normalized);
                 out.api_calls += 1;
-                match guard(|| betweenness_centrality(&graph, weighted, normalized)) {
+                match guard(|| crate::props::c17::in_some_pool(case.perm as u64 / 8 + normalized as u64, || betweenness_centrality(&graph, weighted, normalized))) {
                     Err(p) => out.fail(format!("{}/panic/{}", ctx, panic_class(&p)), p),
                     Ok(Err(e)) => out.fail(format!("{}/error/{}", ctx, kind_of(&e)), e.message.clone()),
                     Ok(Ok(got)) => compare_node_map(&ng, &got, &want, 1e-9, 1e-12, &ctx, &mut out),
